@@ -15,7 +15,7 @@ def table_groups(tier, props=("C19", "C01", "C02", "C10")):
     q = tier == "quick"
     for k in (range(1, 6) if q else range(1, 9)):   # k = 6..8: measured out of memory (table of 64..256 symbolic rows read at a symbolic row index): thorough-tier attempts
         shapes = [(70, 0, "owned"), (130, 70, "view1")] if q else [(1, 0, "owned"), (64, 0, "owned"), (70, 5, "view0"), (130, 70, "view1"), (200, 64, "owned"), (700, 130, "view1")]
-        if q and k in (3, 5):
+        if q and k == 3:   # (k = 5 at 700 columns: out of memory at the default limit, thorough tier)
             shapes.append((700, 3, "owned"))
         for nc, ccol, kind in shapes:
             d = mat(k + 1, nc, kind)
@@ -41,6 +41,8 @@ def groups(tier, seed):
     for ln in range(1, 17):
         for nm, fn, enf in (("spread", "m4ri_spread_bits", "m4ri_spread_bits"), ("shrink", "m4ri_shrink_bits", "m4ri_shrink_bits"),
                             ("spread_inv", "m4ri_spread_bits o m4ri_shrink_bits (mutually inverse)", None)):
+            if nm == "spread_inv" and ln > 10 and tier == "quick":
+                continue   # measured 160 - 510 s each for length 11..16 (a lemma that also follows from the two closed-form contracts): thorough tier
             gs.append(Group(gid="C19.word.%s.len%d" % (nm, ln), props=P, harness="c19.c", function=fn, layer="P", defines={"H_" + nm.upper(): None, "LEN": ln},
                             enforce=[enf] if enf else [], unwind=17, bounded=False, solver="--sat-solver cadical", bound_note="(length enumerated 1..16: complete; the only loop is the harness's 16-step construction of Q)", timeout=600, shape="length=%d" % ln))
     w("spread_abort", "m4ri_spread_bits/m4ri_shrink_bits (length outside 1..16)")
